@@ -60,7 +60,7 @@ fn osu_attrs(a: &[u32]) -> OsuDifficultyAttributes {
     }
 }
 
-/// The Classic mod in one of its three equivalent spellings (picked from the case's numbers, so the
+/// The Classic mod in one of its four equivalent spellings (picked from the case's numbers, so the
 /// same case always gets the same one): intermode CL, lazer ClassicOsu with the setting left at its
 /// default, lazer ClassicOsu with `no_slider_head_accuracy: Some(true)`.
 fn osu_mods_of(c: &GsCase) -> rosu_pp::model::mods::GameMods {
@@ -69,8 +69,14 @@ fn osu_mods_of(c: &GsCase) -> rosu_pp::model::mods::GameMods {
         return mods_of(c).into();
     }
     let pick = c.attrs.iter().sum::<u32>() as usize + c.opts.iter().flatten().count();
-    match pick % 3 {
+    match pick % 4 {
         0 => mods_of(c).into(),
+        3 => {
+            // by reference, next to a mod that has a legacy bit (Hidden does not matter to the state)
+            let mut m = mods_of(c);
+            m.insert(GameModIntermode::Hidden);
+            rosu_pp::model::mods::GameMods::from(&m)
+        }
         1 => {
             let mut m = Lazer::new();
             m.insert(GameMod::ClassicOsu(ClassicOsu::default()));
@@ -81,6 +87,18 @@ fn osu_mods_of(c: &GsCase) -> rosu_pp::model::mods::GameMods {
             m.insert(GameMod::ClassicOsu(ClassicOsu { no_slider_head_accuracy: Some(true), ..Default::default() }));
             m.into()
         }
+    }
+}
+
+/// mania: the intermode Classic mod, owned or by reference next to a legacy-bit mod
+fn mania_mods_of(c: &GsCase) -> rosu_pp::model::mods::GameMods {
+    let pick = c.attrs.iter().sum::<u32>() as usize + c.opts.iter().flatten().count();
+    if c.cl && pick % 2 == 1 {
+        let mut m = mods_of(c);
+        m.insert(GameModIntermode::Hidden);
+        rosu_pp::model::mods::GameMods::from(&m)
+    } else {
+        mods_of(c).into()
     }
 }
 
@@ -212,7 +230,7 @@ fn mania_perf(c: &GsCase) -> ManiaPerformance<'static> {
         ..Default::default()
     };
     let mut p = ManiaPerformance::new(attrs)
-        .mods(mods_of(c))
+        .mods(mania_mods_of(c))
         .hitresult_priority(prio(c.prio));
     if let Some(l) = c.lazer {
         p = p.lazer(l);
